@@ -46,7 +46,7 @@ fn exec_t_child(prop: &str, plan: &Rc<Plan>) -> Result<Executed, String> {
     let line = String::from_utf8_lossy(&out.stdout);
     let line = line.lines().rev().find(|l| l.starts_with("{\"history\"")).ok_or("exec-plan child printed no result")?;
     let co: ChildOut = serde_json::from_str(line).map_err(|e| format!("child output: {e}"))?;
-    Ok(Executed { violations: co.violations, history: Some(co.history), chistory: None, bhistory: None })
+    Ok(Executed { violations: co.violations, history: Some(co.history), chistory: None, bhistory: None, rhistory: None })
 }
 
 fn exec_plan_child(args: &[String]) -> Result<u8, String> {
@@ -69,6 +69,7 @@ fn exec(prop: &str, plan: &Rc<Plan>) -> Result<Executed, String> {
         'A' => check::execute_a(prop, plan),
         'C' => check::execute_c(prop, plan),
         'B' => check::execute_b(prop, plan),
+        'R' => check::execute_r(prop, plan),
         w => Err(format!("harness: world {w} not available in this worker for {prop}")),
     }
 }
@@ -128,6 +129,9 @@ fn plan_for(c: &Common, index: u64) -> (u64, Plan) {
     if check::world_of(&c.prop) == 'B' {
         check::decorate_for_world_b(&c.prop, &mut plan);
     }
+    if check::world_of(&c.prop) == 'R' {
+        check::decorate_for_world_r(&mut plan);
+    }
     if FORCE_T.load(std::sync::atomic::Ordering::SeqCst) {
         plan.tracing = true;
     }
@@ -159,6 +163,9 @@ fn run(args: &[String]) -> Result<u8, String> {
         }
         if let Some(bh) = &e.bhistory {
             stats.absorb_b(&plan, bh);
+        }
+        if let Some(rh) = &e.rhistory {
+            stats.absorb_r(&plan, rh);
         }
         for v in &e.violations {
             stats.violations += 1;
@@ -232,7 +239,11 @@ fn digests(args: &[String]) -> Result<u8, String> {
 fn show(args: &[String]) -> Result<u8, String> {
     let c = common(args)?;
     let index: u64 = arg(args, "--index").and_then(|s| s.parse().ok()).unwrap_or(0);
-    let (_, plan) = plan_for(&c, index);
+    let (_, mut plan) = plan_for(&c, index);
+    if let Some(pf) = arg(args, "--replay-file") {
+        let rf: ReplayFile = serde_json::from_str(&fs::read_to_string(pf).map_err(|e| e.to_string())?).map_err(|e| e.to_string())?;
+        plan = rf.minimised_plan;
+    }
     println!("{}", serde_json::to_string(&plan).map_err(|e| e.to_string())?);
     for f in &plan.features {
         println!("{}", f.gherkin());
@@ -247,6 +258,12 @@ fn show(args: &[String]) -> Result<u8, String> {
             println!("CB {:?} {} #{} w={:?} [{}..{:?}] {:?} {:?}", cb.kind, cb.site, cb.ordinal, cb.world, cb.enter, cb.exit, cb.token, cb.finished_arg);
         }
         println!("end={:?} stats={:?}", h.end, h.stats);
+    }
+    if let Some(r) = &e.rhistory {
+        for ev in &r.input {
+            println!("IN  {}", ev.short());
+        }
+        println!("--- {} report ---\n{}", r.reporter, r.output);
     }
     if let Some(b) = &e.bhistory {
         for ev in &b.raw {
